@@ -191,6 +191,44 @@ fn compile_error_msg(item: &syn::Item) -> Option<String> {
     None
 }
 
+/// Does the flattened real output consist of the model's segments in order, every error / dump segment standing for one
+/// `::core::compile_error!{"…"}` with any message?  (Used only when syn cannot split the output into items.)
+fn matches_model_loosely(segs: &[Seg], whole: &str) -> bool {
+    let mut rest = whole.trim_start();
+    for s in segs {
+        if s.kind == SegKind::T {
+            if s.toks.is_empty() {
+                continue;
+            }
+            match rest.strip_prefix(s.toks.as_str()) {
+                Some(r) if r.is_empty() || r.starts_with(' ') => rest = r.trim_start(),
+                _ => return false,
+            }
+        } else {
+            let Some(r) = rest.strip_prefix(":: core :: compile_error ! { \"") else { return false };
+            // end of the string literal: the first `"` not preceded by a backslash
+            let b = r.as_bytes();
+            let mut i = 0;
+            while i < b.len() {
+                if b[i] == b'\\' {
+                    i += 2;
+                    continue;
+                }
+                if b[i] == b'"' {
+                    break;
+                }
+                i += 1;
+            }
+            if i >= b.len() {
+                return false;
+            }
+            let Some(r2) = r[i + 1..].trim_start().strip_prefix('}') else { return false };
+            rest = r2.trim_start();
+        }
+    }
+    rest.is_empty()
+}
+
 /// Split the real output into segments the way the model labels them.
 fn split_real(ts: TokenStream, entry: &str) -> Result<Vec<Seg>, String> {
     use quote::ToTokens;
@@ -580,13 +618,21 @@ fn main() {
                 if a.to_string() != b.to_string() {
                     push(-1, "*", "nondet", "", &a.to_string());
                 }
+                let whole = flatten(a.clone());
                 match split_real(a, &c.entry) {
                     Ok(s) => Some(s),
                     Err(e) => {
                         if let Some(w) = e.strip_prefix("ROUNDTRIP\u{1}") {
                             push(-1, "*", "roundtrip", "", w);
                         } else {
-                            push(-1, "*", "parse", "", &e);
+                            // syn cannot split the output into items.  If it is token for token what the model emits
+                            // (no error segments), the disagreement is only about well-formedness, on which rustc's own
+                            // parser gets the last word (`parse-syn`: bin/check asks it); otherwise it is a plain `parse`.
+                            if matches_model_loosely(&c.segs, &whole) {
+                                push(-1, "*", "parse-syn", "", &e);
+                            } else {
+                                push(-1, "*", "parse", "", &e);
+                            }
                         }
                         None
                     }
